@@ -103,6 +103,19 @@ func render(tpl string, lo layout) []rune {
 			} else {
 				out = append(out, ' ', ' ', ' ', ' ')
 			}
+		case c == '↵': // optional line break (followed by one indentation unit)
+			if varied() {
+				out = append(out, '\n')
+				if lo.tab || lo.canon {
+					out = append(out, '\t')
+				} else {
+					out = append(out, ' ', ' ', ' ', ' ')
+				}
+			}
+		case c == '↲': // optional line break in front of a closing bracket
+			if varied() {
+				out = append(out, '\n')
+			}
 		case c == '之':
 			if varied() {
 				m := zv.Rune("dot")
@@ -148,7 +161,7 @@ func countSlots(tpl string) int {
 	rs := []rune(tpl)
 	for i := 0; i < len(rs); i++ {
 		c := rs[i]
-		if c == '~' || c == '_' || c == '\n' || c == '之' {
+		if c == '~' || c == '_' || c == '\n' || c == '之' || c == '↵' || c == '↲' {
 			n++
 		} else if c == '‹' {
 			n++
@@ -183,6 +196,13 @@ var skeletons = []string{
 	"抛出异常~：~“错”~！",
 	"导入《库》\n导入“甲-乙”之方法一、方法二\n\n输入X、Y\n输出_X_+_Y\n\n拦截异常~：\n\t输出_0",
 	"令L~‹=›~【\n\t1~，\n\t2~，\n\t3\n】",
+	"令L~‹=›~【↵1~，↵2~，↵3↲】",
+	"令M~‹=›~【↵甲~=~1~，↵乙~=~2↲】",
+	"输出_{↵A_且_B↲}_‹==›_C",
+	"令A~‹=›~1\n{A_且_B}_为_C",
+	"输出_L#{↵I_+_1↲}",
+	"（显示~：↵“甲”~、↵B）",
+	"令X~‹=›~{↵{A_+_B}_*_C↲}_-_D",
 	"令A~‹=›~1~；~令B~‹=›~2",
 	"（显示~：\n\t“甲”~、\n\tB）",
 	"令A~‹=›~1_注∶这是注释\n令B~‹=›~2_//_另一注释\n/* 块\n注释 */令C~‹=›~3",
